@@ -41,10 +41,14 @@ def _maybe_rename_grid_positions(grid, arr_source, arr_target):
 def _maybe_swap_dimension_names(da, from_name, to_name):
     # renames 1D slices and swaps dimension names for higher dimensional slices
     if to_name in da.dims:
-        da = da.rename({to_name: to_name + "dummy"})
+        # temporary name for the swap: must not be one of the array's own dimensions
+        temp_name = to_name + "dummy"
+        while temp_name in da.dims:
+            temp_name = temp_name + "_"
+        da = da.rename({to_name: temp_name})
         if from_name in da.dims:
             da = da.rename({from_name: to_name})
-        da = da.rename({to_name + "dummy": from_name})
+        da = da.rename({temp_name: from_name})
     else:
         da = da.rename({from_name: to_name})
     return da
